@@ -74,6 +74,21 @@ extern "C" void vp_thr_ii(uset_t* s, int tid, int k0, int k1) { do_op(s, tid, 0,
 extern "C" void vp_thr_f(uset_t* s, int tid, int k0) { do_op(s, tid, 0, OP_FIND, k0); }
 extern "C" void vp_thr_if(uset_t* s, int tid, int k0, int k1) { do_op(s, tid, 0, OP_INSERT, k0); do_op(s, tid, 1, OP_FIND, k1); }
 extern "C" void vp_thr_c(uset_t* s, int tid, int k0) { do_op(s, tid, 0, OP_COUNT, k0); }
+// white-box body: only the bucket lookup (get_bucket -> init_bucket -> insert_dummy_node), the part of every operation that
+// initialises a bucket on first use
+extern "C" void vp_bucket_result(int tid, int slot, unsigned long bucket, void* node);
+extern "C" void vp_thr_g(uset_t* s, int tid, unsigned long bucket) {
+  vp_op_begin(tid, 0, 5, (int)bucket);
+  void* p = s->get_bucket(bucket);
+  vp_bucket_result(tid, 0, bucket, p);
+}
+// white-box body: only the bucket-table subscript (segment_table::operator[] -> internal_subscript -> enable_segment ->
+// create_segment / deallocate_segment), which allocates a segment on first use and races on installing it
+extern "C" void vp_slot_result(int tid, unsigned long idx, void* slot, void* content);
+extern "C" void vp_thr_s(uset_t* s, int tid, unsigned long idx) {
+  std::atomic<lnode_t*>* p = &s->my_segments[idx];
+  vp_slot_result(tid, idx, p, p->load(std::memory_order_relaxed));
+}
 extern "C" void vp_thr_t(uset_t* s, int tid) { do_op(s, tid, 0, OP_TRAVERSE, 0); }
 
 // ---- sequential helpers (pre-state through the real public operations, white-box inspection at quiescence)
@@ -103,6 +118,14 @@ int vp_node_is_dummy(lnode_t* n) { return n->is_dummy(); }
 int vp_node_value(lnode_t* n) { return static_cast<vnode_t*>(n)->value(); }
 // bucket table entry (through segment_table::operator[], which the list units cut to its contract)
 void* vp_us_bucket_raw(uset_t* s, unsigned long b) { return s->my_segments[b].load(std::memory_order_relaxed); }
+// number of bucket-table segments currently installed, and the installed (biased) pointer of one
+unsigned long vp_us_nsegments(uset_t* s) {
+  unsigned long n = 0;
+  for (unsigned long i = 0; i < uset_t::pointers_per_embedded_table; i++) if (s->my_segments.get_table()[i].load(std::memory_order_relaxed) != nullptr) n++;
+  return n;
+}
+void* vp_us_slot_addr(uset_t* s, unsigned long idx) { return &s->my_segments[idx]; }
+unsigned long vp_seg_index_of(unsigned long i) { return uset_t::unordered_segment_table::segment_index_of(i); }
 unsigned long vp_key_regular(unsigned long h) { return uset_t::split_order_key_regular(h); }
 unsigned long vp_key_dummy(unsigned long b) { return uset_t::split_order_key_dummy(b); }
 // public traversal (iterator protocol) used sequentially at quiescence
